@@ -18,6 +18,26 @@ pub enum Disp {
     Ignore,
     Plain,
     Info,
+    /// a one-argument handler installed with SA_RESETHAND | SA_NODEFER | SA_ONSTACK | SA_NOCLDSTOP
+    PlainOdd,
+    /// a three-argument handler installed with SA_SIGINFO | SA_RESETHAND | SA_NODEFER
+    InfoOdd,
+    /// SIG_IGN / SIG_DFL stored with SA_SIGINFO in the flags (what C code recycling a struct sigaction produces)
+    IgnoreInfoFlag,
+    DefaultInfoFlag,
+}
+
+impl Disp {
+    /// what chaining must do with it
+    pub fn kind(self) -> Disp {
+        match self {
+            Disp::PlainOdd => Disp::Plain,
+            Disp::InfoOdd => Disp::Info,
+            Disp::IgnoreInfoFlag => Disp::Ignore,
+            Disp::DefaultInfoFlag => Disp::Default,
+            d => d,
+        }
+    }
 }
 
 pub fn set_disposition(sig: i32, d: Disp) {
@@ -29,6 +49,22 @@ pub fn set_disposition(sig: i32, d: Disp) {
             Disp::Plain => sa.sa_sigaction = foreign_plain as usize,
             Disp::Info => {
                 sa.sa_sigaction = foreign_info as usize;
+                sa.sa_flags = libc::SA_SIGINFO;
+            }
+            Disp::PlainOdd => {
+                sa.sa_sigaction = foreign_plain as usize;
+                sa.sa_flags = libc::SA_RESETHAND | libc::SA_NODEFER | libc::SA_ONSTACK | libc::SA_NOCLDSTOP;
+            }
+            Disp::InfoOdd => {
+                sa.sa_sigaction = foreign_info as usize;
+                sa.sa_flags = libc::SA_SIGINFO | libc::SA_RESETHAND | libc::SA_NODEFER;
+            }
+            Disp::IgnoreInfoFlag => {
+                sa.sa_sigaction = libc::SIG_IGN;
+                sa.sa_flags = libc::SA_SIGINFO;
+            }
+            Disp::DefaultInfoFlag => {
+                sa.sa_sigaction = libc::SIG_DFL;
                 sa.sa_flags = libc::SA_SIGINFO;
             }
         }
@@ -250,10 +286,122 @@ pub fn build_h1(p: H1P) -> Scenario<Arc<H1>> {
     };
     Scenario {
         name: p.name.to_string(),
-        opts: Opts { stale_reads: p.stale, stale_depth: 3, max_spurious: 0, horizon: 5_000, log_ops: false, log_handler_ops: false, reduce: false, no_discipline: false, nest_value_t1: 0, post_points: false, no_race_check: false, start_points: false },
+        opts: Opts { stale_reads: p.stale, stale_depth: 3, max_spurious: 0, horizon: 5_000, log_ops: false, log_handler_ops: false, reduce: false, no_discipline: false, nest_value_t1: 0, post_points: false, no_race_check: false, start_points: false, endurance: 0 },
         signals: vec![S1],
         setup: Box::new(setup),
         threads,
+        finish: Box::new(finish),
+        monitor: Some(Box::new(|| Box::new(SnapMon::default()) as Box<dyn Monitor>)),
+    }
+}
+
+// ---------------------------------------------------------------------------------------------
+// H1 endurance: a reader that is inside its section and is not scheduled for a long time (a thread the
+// operating system has taken off the processor). The writer may spin as long as it likes but must
+// neither return nor release the old value; when the reader finally leaves, the writer finishes and
+// releases it. One execution (the order is forced by the harness), `rounds` barrier rounds long.
+
+pub struct H1E {
+    hl: Box<shim::HalfLockProbe<Canary>>,
+    /// reader -> writer: "I am inside"; harness -> reader: "go on"
+    inside: [i32; 2],
+    go: [i32; 2],
+}
+
+pub fn build_h1_endurance(name: &'static str, rounds: u64) -> Scenario<Arc<H1E>> {
+    let setup = move || {
+        set_disposition(S1, Disp::Ignore);
+        let hl = Box::new(shim::HalfLockProbe::new(Canary(100)));
+        let mut a = [0i32; 2];
+        let mut b = [0i32; 2];
+        unsafe {
+            libc::pipe(a.as_mut_ptr());
+            libc::pipe(b.as_mut_ptr());
+        }
+        Arc::new(H1E { hl, inside: a, go: b })
+    };
+    let w = ThreadSpec {
+        name: "W",
+        body: Box::new(move |s: &Arc<H1E>| {
+            sched::wait_readable(s.inside[0]);
+            sched::log("store_call", 10, 0);
+            let mut g = s.hl.write();
+            g.store(Canary(10));
+            drop(g);
+            sched::log("store_ret", 10, 0);
+        }),
+        nest_signals: vec![],
+        max_nest: 0,
+    };
+    let r = ThreadSpec {
+        name: "R",
+        body: Box::new(move |s: &Arc<H1E>| {
+            let g = s.hl.read();
+            sched::log("touch", g.0, 0);
+            unsafe {
+                libc::write(s.inside[1], b"x".as_ptr() as *const _, 1);
+            }
+            sched::wait_readable(s.go[0]);
+            sched::log("touch", g.0, 0);
+            drop(g);
+            sched::log("section_left", 0, 0);
+        }),
+        nest_signals: vec![],
+        max_nest: 0,
+    };
+    let q = ThreadSpec {
+        name: "Q",
+        body: Box::new(move |s: &Arc<H1E>| {
+            sched::await_quiescence();
+            sched::log("reader_released", 0, 0);
+            unsafe {
+                libc::write(s.go[1], b"x".as_ptr() as *const _, 1);
+            }
+        }),
+        nest_signals: vec![],
+        max_nest: 0,
+    };
+    let finish = move |s: Arc<H1E>, e: &mut Exec| -> Result<u64, String> {
+        let s = Arc::try_unwrap(s).map_err(|_| "engine: state shared".to_string())?;
+        for fd in s.inside.iter().chain(s.go.iter()) {
+            unsafe {
+                libc::close(*fd);
+            }
+        }
+        drop(s);
+        if !e.panics.is_empty() {
+            return Err(format!("C18: half-lock operation panicked: {:?}", e.panics));
+        }
+        let pos = |tag: &str, a: u64| e.log.iter().position(|ev| ev.tag == tag && (a == u64::MAX || ev.a == a));
+        let left = pos("section_left", u64::MAX).ok_or("engine: reader did not finish")?;
+        let released = pos("reader_released", u64::MAX).ok_or("engine: the reader was never released")?;
+        let ret = pos("store_ret", 10).ok_or("C18: the store never returned")?;
+        let spins = e.log[..released].iter().filter(|ev| ev.tag == "yield" || ev.tag == "spin_hint").count() as u64;
+        if ret < left {
+            return Err(format!("C01: a store returned while a reader that had entered before it was still inside its section (after {} rounds of waiting)", spins));
+        }
+        match pos("canary_drop", 100) {
+            None => return Err(format!("C01: the replaced value was never released although the store returned after the last reader had left (the writer gave up waiting after at most {} rounds and leaked it)", spins)),
+            Some(d) => {
+                if d < left {
+                    return Err("C01: the replaced value was released while a reader was still inside its section".into());
+                }
+                if d > ret {
+                    return Err("C01: the replaced value was released only after the store had returned".into());
+                }
+            }
+        }
+        if spins < rounds {
+            return Err(format!("engine: the endurance run let the writer wait only {} rounds (wanted {})", spins, rounds));
+        }
+        Ok(1)
+    };
+    Scenario {
+        name: name.to_string(),
+        opts: Opts { stale_reads: false, stale_depth: 2, max_spurious: 0, horizon: 16 * rounds + 10_000, log_ops: false, log_handler_ops: false, reduce: false, no_discipline: false, nest_value_t1: 0, post_points: false, no_race_check: false, start_points: false, endurance: rounds },
+        signals: vec![S1],
+        setup: Box::new(setup),
+        threads: vec![w, r, q],
         finish: Box::new(finish),
         monitor: Some(Box::new(|| Box::new(SnapMon::default()) as Box<dyn Monitor>)),
     }
@@ -583,7 +731,7 @@ fn check_registry(log: &[Ev], p: &RP, e: &Exec) -> Result<u64, String> {
     // --- C04: chaining of the previous handler
     if p.prop == "C04" {
         for d in &deliveries {
-            let disp = p.disps.iter().find(|x| x.0 == d.sig).map(|x| x.1).unwrap_or(Disp::Ignore);
+            let disp = p.disps.iter().find(|x| x.0 == d.sig).map(|x| x.1.kind()).unwrap_or(Disp::Ignore);
             match disp {
                 Disp::Plain | Disp::Info => {
                     if d.foreign.len() != 1 {
@@ -616,6 +764,9 @@ fn check_registry(log: &[Ev], p: &RP, e: &Exec) -> Result<u64, String> {
                 let (h, flags) = current_handler(a.sig);
                 if h != shim::handler_address() || flags & libc::SA_SIGINFO == 0 || flags & libc::SA_RESTART == 0 {
                     return Err(format!("C04: after registration the disposition of signal {} is not the library's handler with SA_SIGINFO|SA_RESTART", a.sig));
+                }
+                if flags & libc::SA_RESETHAND != 0 {
+                    return Err(format!("C04: the library's handler for signal {} is installed one-shot (flags {:#x}): SA_RESETHAND of the previous handler was taken over, so it will not stay installed", a.sig, flags));
                 }
             }
         }
@@ -752,7 +903,7 @@ pub fn build_reg(p: RP) -> Scenario<Arc<RS>> {
     };
     Scenario {
         name: p.name.to_string(),
-        opts: Opts { stale_reads: p.stale, stale_depth: 3, max_spurious: 0, horizon: 20_000, log_ops: false, log_handler_ops: false, reduce: false, no_discipline: false, nest_value_t1: 0, post_points: false, no_race_check: false, start_points: false },
+        opts: Opts { stale_reads: p.stale, stale_depth: 3, max_spurious: 0, horizon: 20_000, log_ops: false, log_handler_ops: false, reduce: false, no_discipline: false, nest_value_t1: 0, post_points: false, no_race_check: false, start_points: false, endurance: 0 },
         signals: vec![S1, S2],
         setup: Box::new(setup),
         threads,
@@ -813,7 +964,7 @@ pub fn build_relay_h1(name: &'static str, stores: u32) -> Scenario<Arc<Relay>> {
     };
     Scenario {
         name: name.to_string(),
-        opts: Opts { stale_reads: false, stale_depth: 2, max_spurious: 0, horizon: 3_000, log_ops: false, log_handler_ops: false, reduce: false, no_discipline: false, nest_value_t1: 0, post_points: false, no_race_check: false, start_points: false },
+        opts: Opts { stale_reads: false, stale_depth: 2, max_spurious: 0, horizon: 3_000, log_ops: false, log_handler_ops: false, reduce: false, no_discipline: false, nest_value_t1: 0, post_points: false, no_race_check: false, start_points: false, endurance: 0 },
         signals: vec![S1],
         setup: Box::new(setup),
         threads: vec![reader("R1"), reader("R2"), writer],
@@ -868,7 +1019,7 @@ pub fn build_relay_reg(name: &'static str) -> Scenario<Arc<RelayReg>> {
     };
     Scenario {
         name: name.to_string(),
-        opts: Opts { stale_reads: false, stale_depth: 2, max_spurious: 0, horizon: 6_000, log_ops: false, log_handler_ops: false, reduce: false, no_discipline: true, nest_value_t1: 0, post_points: false, no_race_check: false, start_points: false },
+        opts: Opts { stale_reads: false, stale_depth: 2, max_spurious: 0, horizon: 6_000, log_ops: false, log_handler_ops: false, reduce: false, no_discipline: true, nest_value_t1: 0, post_points: false, no_race_check: false, start_points: false, endurance: 0 },
         signals: vec![S1, S2],
         setup: Box::new(setup),
         threads: vec![deliverer("D1", S1), deliverer("D2", S2), mutator],
@@ -922,7 +1073,7 @@ pub fn build_owner_drop(name: &'static str) -> Scenario<Arc<Owner>> {
     };
     Scenario {
         name: name.to_string(),
-        opts: Opts { stale_reads: true, stale_depth: 3, max_spurious: 0, horizon: 20_000, log_ops: false, log_handler_ops: false, reduce: false, no_discipline: false, nest_value_t1: 0, post_points: false, no_race_check: false, start_points: false },
+        opts: Opts { stale_reads: true, stale_depth: 3, max_spurious: 0, horizon: 20_000, log_ops: false, log_handler_ops: false, reduce: false, no_discipline: false, nest_value_t1: 0, post_points: false, no_race_check: false, start_points: false, endurance: 0 },
         signals: vec![S1, S2],
         setup: Box::new(setup),
         threads: vec![m, d("D1", vec![S1, S2]), d("D2", vec![S2])],
@@ -1022,7 +1173,7 @@ pub fn build_iter_live(name: &'static str) -> Scenario<Arc<Owner>> {
     };
     Scenario {
         name: name.to_string(),
-        opts: Opts { stale_reads: false, stale_depth: 2, max_spurious: 0, horizon: 20_000, log_ops: false, log_handler_ops: false, reduce: true, no_discipline: false, nest_value_t1: 0, post_points: false, no_race_check: false, start_points: false },
+        opts: Opts { stale_reads: false, stale_depth: 2, max_spurious: 0, horizon: 20_000, log_ops: false, log_handler_ops: false, reduce: true, no_discipline: false, nest_value_t1: 0, post_points: false, no_race_check: false, start_points: false, endurance: 0 },
         signals: vec![S1, S2],
         setup: Box::new(setup),
         threads: vec![a, b, d],
@@ -1066,6 +1217,7 @@ pub fn scenarios(prop: &str, tier: Tier) -> Vec<Item> {
             v.push(item(build_h1(H1P { name: "h1_1w1_2r1", writers: vec![1], readers: vec![1, 1], nest_writer: false, stale: true }), if q { Some(3) } else { Some(5) }, "half-lock: 1 store vs 2 readers"));
             v.push(item(build_h1(H1P { name: "h1_1w2_2r2_nested", writers: vec![2], readers: vec![2, 2], nest_writer: true, stale: true }), b(2, 3), "2 stores vs 2x2 reads + a read nested in the writer at every boundary"));
             v.push(item(build_h1(H1P { name: "h1_2w_2r", writers: vec![1, 1], readers: vec![1, 2], nest_writer: true, stale: true }), b(2, 3), "2 writers vs 2 readers + nested read"));
+            v.push(item(build_h1_endurance("h1_reader_off_cpu_endurance", 1_600_000), Some(0), "a reader stays inside its section while the writer goes through 1.6 million barrier rounds (a thread off the processor for a long time): the store must neither return nor release the old value before the reader leaves, and must do both afterwards; one forced schedule"));
             // registry
             let mut p = rp("reg_unregister_vs_deliveries", "C01");
             p.pre = vec![Reg(S1, 1)];
@@ -1111,6 +1263,12 @@ pub fn scenarios(prop: &str, tier: Tier) -> Vec<Item> {
                 p.nest = vec![S1, S2];
                 v.push(item(build_reg(p), Some(2), "two mutators on two signals, deliveries of both from two threads"));
             }
+            let mut p = rp("snapshot_after_oneshot_handler_urg", "C02");
+            p.disps = vec![(libc::SIGURG, Disp::PlainOdd), (S2, Disp::Ignore)];
+            p.pre = vec![Reg(libc::SIGURG, 1)];
+            p.mutators = vec![vec![Reg(libc::SIGURG, 2)]];
+            p.deliverers = vec![vec![libc::SIGURG, libc::SIGURG, libc::SIGURG]];
+            v.push(item(build_reg(p), b(2, 3), "the signal was taken over from a handler installed with SA_RESETHAND|SA_NODEFER|SA_ONSTACK: every one of three deliveries must still run the registered actions"));
             let mut p = rp("snapshot_first_registration", "C02");
             p.mutators = vec![vec![Reg(S1, 1), Reg(S1, 2), UnregSig(S1), Reg(S1, 3)]];
             p.deliverers = vec![vec![S1, S1]];
@@ -1123,6 +1281,8 @@ pub fn scenarios(prop: &str, tier: Tier) -> Vec<Item> {
                 ("chain_siginfo", Disp::Info, S1),
                 ("chain_ignore", Disp::Ignore, S1),
                 ("chain_default_urg", Disp::Default, libc::SIGURG),
+                ("chain_ignore_with_siginfo_flag", Disp::IgnoreInfoFlag, S1),
+                ("chain_default_with_siginfo_flag_urg", Disp::DefaultInfoFlag, libc::SIGURG),
             ] {
                 let mut p = rp(name, "C04");
                 p.disps = vec![(sig, d), (S2, Disp::Plain)];
@@ -1141,6 +1301,15 @@ pub fn scenarios(prop: &str, tier: Tier) -> Vec<Item> {
                 p.deliverers = vec![vec![S1, S1]];
                 p.nest = vec![S1];
                 v.push(item(build_reg(p), b(2, 3), "after register + unregister of everything: re-registration, unregister_signal, another signal's first registration vs deliveries"));
+            }
+            for (name, d) in [("chain_oneshot_plain_after_takeover_urg", Disp::PlainOdd), ("chain_oneshot_siginfo_after_takeover_urg", Disp::InfoOdd)] {
+                let mut p = rp(name, "C04");
+                p.disps = vec![(libc::SIGURG, d), (S2, Disp::Plain)];
+                p.pre = vec![Reg(libc::SIGURG, 1)];
+                p.mutators = vec![vec![Reg(libc::SIGURG, 2), Unreg(1)], vec![Reg(S2, 5)]];
+                p.deliverers = vec![vec![libc::SIGURG, libc::SIGURG, libc::SIGURG]];
+                p.nest = vec![libc::SIGURG];
+                v.push(item(build_reg(p), b(2, 3), "taken over from a handler installed with SA_RESETHAND|SA_NODEFER(|SA_ONSTACK): it is chained in every one of three deliveries and the library's handler stays installed without those flags"));
             }
             let mut p = rp("chain_two_signals_both_foreign", "C04");
             p.disps = vec![(S1, Disp::Info), (S2, Disp::Plain)];
